@@ -52,6 +52,23 @@
 (*          every observed output is the reference Format of the CURRENT   *)
 (*          document (render layer rs; see the section "formatting as part *)
 (*          of the history"); NormalFormHist.                              *)
+(*  "proc"  call histories of one PROCESS: a (mutated, bounded) text is    *)
+(*          parsed <= MaxEdits times in one process, every call strict or  *)
+(*          lenient (with either allow_empty_author setting where a bare   *)
+(*          ' --' line makes it matter), in every order.  A parse depends  *)
+(*          on nothing but its own input: ProcHistoryFree (every call has  *)
+(*          the outcome of the reference parse), StrictIffWarnProc (the    *)
+(*          statement across calls: ANY strict parse of a text raises      *)
+(*          exactly when ANY lenient parse of it warns).  The mutation     *)
+(*          InsertTwiceStep puts the same line (identical text) twice.     *)
+(*                                                                         *)
+(* None as an edit value (Unset.. calls): None is the library's own "not   *)
+(* set" value (default of every new_block argument; the formatter answers  *)
+(* ChangelogCreateError for it), so assigning None is in the domain of the *)
+(* editing calls -- with the weak law only: whatever the call makes of it  *)
+(* (attribute unset, or kept as some value: Changelog.version = None gives *)
+(* the version "None" today), the changelog is unformattable or formats to *)
+(* a normal form (NormalFormEdited over both outcomes).                    *)
 (*                                                                         *)
 (* Domain decision made explicit here: assigning author/date to a block    *)
 (* that has no trailer because the input ended inside it (nt = TRUE) is    *)
@@ -81,19 +98,29 @@
 (*                    by a newline                     -> NormalFormEdited *)
 (*   "StickyParseFlag"  a per-object flag set by one parse and read after  *)
 (*                    the next (Mode "reuse")       -> ParseIsHistoryFree  *)
+(*   "HeadingMemo"  the split heading line is memoised per PROCESS, keyed  *)
+(*                    by the text of the line, after a lenient parse; its  *)
+(*                    diagnostics are produced on a miss only (Mode "proc")*)
+(*                                 -> StrictIffWarnProc / ProcHistoryFree  *)
+(*   "DiagOnce"       every diagnostic is reported once per process and    *)
+(*                    line text (Mode "proc")                              *)
+(*                                 -> StrictIffWarnProc / ProcHistoryFree  *)
+(*   "unsetFormatsEmpty"  version = None is stored as an empty version,    *)
+(*                    the heading 'pkg () dist' is no heading              *)
+(*                                                     -> NormalFormEdited *)
 (*   "keepNoDetails"  the rejected ' --' line is kept as a change line:    *)
 (*                    NOT a violation (still a normal form) -- documents   *)
 (*                    that the law is insensitive to it.                   *)
 (***************************************************************************)
 EXTENDS Integers, Sequences, FiniteSets, TLC, Json
 
-CONSTANTS Mode,        \* "lts" | "text" | "edit" | "hist" | "reuse"
+CONSTANTS Mode,        \* "lts" | "text" | "edit" | "hist" | "reuse" | "proc"
           Classes,     \* classes a mutation may insert (lts: the classes explored)
           AEAs,        \* allow_empty_author settings explored (subset of BOOLEAN)
           MaxLines,    \* longest text
           MaxBlocks, MaxBody, MaxLead, MaxSep,    \* generator bounds
           Budget,      \* number of mutations
-          MaxEdits,    \* editing calls after Eof (Mode = "edit")
+          MaxEdits,    \* editing calls after Eof (Mode = "edit"); parse calls of one process (Mode = "proc")
           Bug,         \* "none" or a negative control
           Emit         \* print EDGE / CASE lines
 
@@ -105,8 +132,9 @@ VARIABLES P,           \* parser record (see PInit)
           budget,      \* mutations left
           phase,       \* "text" | "edit"
           D,           \* the document being edited (phase "edit")
-          ops,         \* history: editing calls
+          ops,         \* history: editing calls (Mode "proc": the parse calls [s, a, w, r] made so far)
           rs           \* render layer (Mode "hist"): caches of the formatter and the last observed output
+                       \* (Mode "proc": rs.memo = what the process keeps between parses -- nothing, unless a Bug says so)
 vars == <<P, aea, sraised, text, gen, budget, phase, D, ops, rs>>
 
 ----------------------------------------------------------------------------
@@ -290,9 +318,10 @@ RECURSIVE FormatBlocks(_, _)
 FormatBlocks(bl, i) == IF i > Len(bl) THEN <<>> ELSE FormatBlock(bl[i]) \o FormatBlocks(bl, i + 1)
 Format(d) == d.ini \o FormatBlocks(d.bl, 1)
 
-\* str() raises ChangelogCreateError when package / version / distributions are None, or author /
+\* str() raises ChangelogCreateError when package / version / distributions / urgency are None, or author /
 \* date are None in a block that has a trailer
-BlockFormattable(b) == b.h[1] # None /\ b.h[2] # None /\ b.h[3] # None /\ (b.nt \/ (b.au # None /\ b.da # None))
+\* (urgency is None only after an Unset.. call: the parser and new_block() leave the default "unknown")
+BlockFormattable(b) == b.h[1] # None /\ b.h[2] # None /\ b.h[3] # None /\ b.h[4] # None /\ (b.nt \/ (b.au # None /\ b.da # None))
 Formattable(d) == \A i \in 1..Len(d.bl) : BlockFormattable(d.bl[i])
 
 \* author / date assigned on a block without trailer: unspecified (module comment)
@@ -330,8 +359,22 @@ MAddChangeAt(ch, ln, v) == IF Len(v) >= 2 /\ v[2] > 0 THEN InsAt(ch, v[2], ln) E
 \* space or a newline.  Outside DESIGN D3, but "unspecified-but-consistent": the call either raises
 \* ValueError (document unchanged) or it is accepted, and then the changelog must still format to a normal
 \* form -- v = <<0>>: rejected, v = <<token>>: the version the block shows afterwards.
-EditOps == {"NewBlockFull", "NewBlockEmpty", "AddBlank", "AddChange", "SetPackage", "SetVersion",
-            "SetDistributions", "SetUrgency", "SetAuthor", "SetDate", "SetVersionWS"}
+BaseEditOps == {"NewBlockFull", "NewBlockEmpty", "AddBlank", "AddChange", "SetPackage", "SetVersion",
+                "SetDistributions", "SetUrgency", "SetAuthor", "SetDate", "SetVersionWS"}
+\* Unset..: the attribute is assigned None (cl.attr = None, cl.set_attr(None), block.attr = None).  None is the
+\* "not set" value of the library; v = <<what the block shows afterwards>>: None (unset), or a value token
+\* (the call kept it as some value -- Changelog.version = None stores the version "None" today).  Either way
+\* NormalFormEdited must hold; which of the two happens is not part of the statement.
+UnsetOps == {"UnsetPackage", "UnsetVersion", "UnsetDistributions", "UnsetUrgency", "UnsetAuthor", "UnsetDate"}
+EditOps == BaseEditOps \cup UnsetOps
+\* the calls a bounded "edit" configuration explores (a cfg may override:  EditOpsUsed <- UnsetFocusOps)
+EditOpsUsed == BaseEditOps
+UnsetFocusOps == UnsetOps \cup {"NewBlockFull", "NewBlockEmpty", "AddChange", "SetVersion", "SetAuthor"}
+UnsetAttr(op) == CASE op = "UnsetPackage" -> 1 [] op = "UnsetVersion" -> 2 [] op = "UnsetDistributions" -> 3
+                   [] op = "UnsetUrgency" -> 4 [] op = "UnsetAuthor" -> 5 [] op = "UnsetDate" -> 6
+\* outcomes explored by the bounded configuration: unset; the validating version setter may also keep a value
+UnsetOutcomes(op, k) == IF Bug = "unsetFormatsEmpty" /\ op = "UnsetVersion" THEN {BadVer}
+                        ELSE {None} \cup (IF op = "UnsetVersion" THEN {120 + k} ELSE {})
 EditEnabled(d, op) == op \in {"NewBlockFull", "NewBlockEmpty"} \/ Len(d.bl) > 0
 \* v: the argument tokens.  NewBlockFull <<package, version, distributions, urgency, rest, author, date, b>>,
 \* NewBlockEmpty <<b>> (b: the '' line that new_block adds as trailing line), AddBlank / AddChange <<line id>>,
@@ -351,6 +394,8 @@ EditApply(d, op, v) ==
     [] op = "SetUrgency"    -> [d EXCEPT !.bl[1].h[4] = v[1]]
     [] op = "SetAuthor"     -> [d EXCEPT !.bl[1].au = v[1]]
     [] op = "SetDate"       -> [d EXCEPT !.bl[1].da = v[1]]
+    [] op \in UnsetOps       -> IF UnsetAttr(op) <= 4 THEN [d EXCEPT !.bl[1].h[UnsetAttr(op)] = v[1]]
+                               ELSE IF UnsetAttr(op) = 5 THEN [d EXCEPT !.bl[1].au = v[1]] ELSE [d EXCEPT !.bl[1].da = v[1]]
 \* the tokens used by the bounded configuration (k: number of calls made before)
 ModelArgs(op, k) ==
   CASE op = "NewBlockFull"  -> <<101, 102, 103, 104, 105, 106, 107, 300>>
@@ -359,6 +404,7 @@ ModelArgs(op, k) ==
     [] op = "SetVersionWS" -> <<IF Bug = "acceptsNewlineVersion" THEN BadVer ELSE 0>>
     [] op = "SetPackage" -> <<111>> [] op = "SetVersion" -> <<112>> [] op = "SetDistributions" -> <<113>>
     [] op = "SetUrgency" -> <<114>> [] op = "SetAuthor" -> <<116>> [] op = "SetDate" -> <<117>>
+    [] op \in UnsetOps -> <<None>>
 
 ----------------------------------------------------------------------------
 \* formatting as part of the history (Mode "hist").  Edits address ANY block through the block object;
@@ -429,8 +475,9 @@ NoText == <<>>                       \* "nothing kept"; a kept text is <<text>>
 \* std: every add_change of the history so far used today's position (RulePos)
 \* pf, f2 (Mode "reuse"): the parse under test runs on an object that was used before; pf: a per-object
 \*     flag some earlier parse left behind ("the earlier text ended in a newline"), f2: the form of THIS input
+\* memo (Mode "proc"): what the PROCESS keeps between parses (line texts already taken apart / reported)
 RInit == [rc |-> <<>>, om |-> <<>>, out |-> <<>>, fresh |-> FALSE, what |-> 0, vt |-> {}, mut |-> {}, std |-> TRUE,
-          pf |-> TRUE, f2 |-> "text"]
+          pf |-> TRUE, f2 |-> "text", memo |-> {}]
 Shown(r, tok) == IF \E x \in r.vt : x[1] = tok THEN (CHOOSE x \in r.vt : x[1] = tok)[2] ELSE tok
 RBlock(d, r, i) == IF BlockRenderCache /\ i <= Len(r.rc) /\ r.rc[i] # NoText THEN r.rc[i][1] ELSE FormatBlock(d.bl[i])
 RECURSIVE ROlder(_, _, _)
@@ -553,10 +600,55 @@ DupStep(m) ==      \* the generated line appears twice
          /\ P' = Eat(p1, l2) /\ text' = text \o <<l1, l2>>
          /\ sraised' = (sraised \/ StrictAfter(P, l1) \/ StrictAfter(p1, l2))
    /\ budget' = budget - 1 /\ Keep
-TextNext == /\ Mode \in {"text", "edit", "hist", "reuse"} /\ phase = "text"
+InsertTwiceStep(c) ==   \* (Mode "proc") the same inserted line twice: identical text, two mutations
+   /\ Mode = "proc" /\ budget > 1 /\ Len(text) + 1 < MaxLines /\ c \in Classes
+   /\ LET ln == TextLine(c, Len(text) + 1)
+          p1 == Eat(P, ln)
+      IN /\ P' = Eat(p1, ln) /\ text' = text \o <<ln, ln>>
+         /\ sraised' = (sraised \/ StrictAfter(P, ln) \/ StrictAfter(p1, ln))
+   /\ budget' = budget - 2 /\ UNCHANGED gen /\ Keep
+TextNext == /\ Mode \in {"text", "edit", "hist", "reuse", "proc"} /\ phase = "text"
             /\ \/ \E m \in {"GenLeadBlank", "GenHeader", "GenChange", "GenBlankInBlock", "GenTrailer", "GenBlankBetween"} :
                       GenStep(m) \/ DeleteStep(m) \/ DupStep(m)
-               \/ \E c \in Classes : InsertStep(c)
+               \/ \E c \in Classes : InsertStep(c) \/ InsertTwiceStep(c)
+
+\* --- call histories of one process (Mode "proc"): the text consumed so far is parsed again and again, strict
+\* or lenient, in any order.  The reference parser keeps nothing between calls (rs.memo stays empty).
+\*   Bug = "HeadingMemo"  the split heading is memoised per process, keyed by the text of the line, when a
+\*                        LENIENT parse got through it; the diagnostics of the key=value list are produced
+\*                        on a miss only: a later parse (either mode) of the same line is silent, a second
+\*                        identical heading in the same text as well
+\*   Bug = "DiagOnce"     the same for every diagnostic of every branch ("reported once per process")
+MemoBranch(b) == (Bug = "HeadingMemo" /\ b = "HTop") \/ Bug = "DiagOnce"
+RECURSIVE MFold(_, _, _, _, _, _, _)
+MFold(p, mm, sr, t, i, a, lenient) ==       \* -> [p: parser record, m: memo, sr: a strict run has raised]
+   IF i > Len(t) THEN [p |-> p, m |-> mm, sr |-> sr]
+   ELSE LET ln    == t[i]
+            b     == TheBranch(p.st, p.old, ln.c, a)
+            o     == BOut(b, p.st, ln.c)
+            quiet == MemoBranch(b) /\ ln \in mm
+            o2    == IF quiet THEN [o EXCEPT !.w = 0] ELSE o
+            m2    == IF lenient /\ MemoBranch(b) /\ o.w = 1 THEN mm \cup {ln} ELSE mm
+        IN MFold(Apply(p, ln, o2), m2, sr \/ (Raises(b, p.st, ln.c) /\ ~quiet), t, i + 1, a, lenient)
+\* one call: -> [w: warnings emitted (lenient), r: raised ChangelogParseError (strict), memo]
+ProcParse(t, a, strict, mm) ==
+   LET r == MFold(PInit, mm, FALSE, t, 1, a, ~strict)
+   IN IF strict THEN [w |-> 0, r |-> r.sr \/ EofWarn(r.p) = 1, memo |-> mm]
+      ELSE [w |-> PEof(r.p).nw, r |-> FALSE, memo |-> r.m]
+HasBareTrailer(t) == \E i \in 1..Len(t) : t[i].c = "EndNoDetails"
+\* (complete texts of the generator, mutated or not; their prefixes are texts of the "text" configurations)
+ProcStart == /\ Mode = "proc" /\ phase = "text" /\ GenAccepting(gen) /\ phase' = "proc"
+             /\ UNCHANGED <<P, aea, sraised, text, gen, budget, D, ops, rs>>
+ProcCall(strict, a) ==
+   /\ Mode = "proc" /\ phase = "proc" /\ Len(ops) < MaxEdits
+   /\ LET r == ProcParse(text, a, strict, rs.memo) IN
+        /\ ops' = Append(ops, [s |-> strict, a |-> a, w |-> r.w, r |-> r.r])
+        /\ rs' = [rs EXCEPT !.memo = r.memo]
+   /\ UNCHANGED <<P, aea, sraised, text, gen, budget, phase, D>>
+\* (allow_empty_author only matters when a bare ' --' line is present; the bounded configuration switches it
+\*  in the last call of a history only)
+ProcNext == ProcStart \/ \E strict \in BOOLEAN :
+                            \E a \in (IF HasBareTrailer(text) /\ Len(ops) + 1 = MaxEdits THEN BOOLEAN ELSE {aea}) : ProcCall(strict, a)
 
 \* --- editing
 EofStep == /\ \/ Mode = "edit"
@@ -568,6 +660,8 @@ EditStep(op) == /\ Mode = "edit" /\ phase = "edit" /\ Len(ops) < MaxEdits
                 /\ EditEnabled(D, op)
                 /\ IF op \in {"AddBlank", "AddChange"}
                    THEN \E p \in InsertChoices(D.bl[1].ch) : D' = EditApply(D, op, <<200 + Len(ops), p>>)      \* any position
+                   ELSE IF op \in UnsetOps
+                   THEN \E tok \in UnsetOutcomes(op, Len(ops)) : D' = EditApply(D, op, <<tok>>)                \* either outcome
                    ELSE D' = EditApply(D, op, ModelArgs(op, Len(ops)))
                 /\ ops' = Append(ops, op)
                 /\ UNCHANGED <<P, aea, sraised, text, gen, budget, phase, rs>>
@@ -590,7 +684,8 @@ Next == \/ \E c \in Classes : LConsume(c)
         \/ LEof
         \/ TextNext
         \/ EofStep
-        \/ \E op \in EditOps : EditStep(op)
+        \/ \E op \in EditOpsUsed : EditStep(op)
+        \/ ProcNext
 Spec == Init /\ [][Next]_vars
 
 ----------------------------------------------------------------------------
@@ -649,6 +744,17 @@ ParseIsHistoryFree == (Mode = "reuse" /\ phase = "text") =>
                          /\ ObjText(rs, PEofF(P, rs.f2).doc) = Format(PEofF(P, rs.f2).doc)       \* = what a fresh object gives
                          /\ WellFormedText => ObjText(rs, Res.doc) = text
 
+\* C15, call histories of one PROCESS (Mode "proc"): a parse depends on nothing but its own input -- every
+\* call has the outcome of the reference parse of the text, whatever was parsed before, in whatever mode
+ProcHistoryFree ==
+   (Mode = "proc" /\ phase = "proc") =>
+      \A k \in 1..Len(ops) : LET ref == ParseText(text, ops[k].a)
+                             IN IF ops[k].s THEN ops[k].r = (ref.nw > 0) ELSE ops[k].w = ref.nw
+\* the statement across calls: ANY strict parse of the text raises exactly when ANY lenient parse of it warns
+StrictIffWarnProc ==
+   (Mode = "proc" /\ phase = "proc") =>
+      \A i, j \in 1..Len(ops) : (ops[i].a = ops[j].a /\ ~ops[i].s /\ ops[j].s) => (ops[j].r <=> ops[i].w > 0)
+
 \* C04 / C15, histories: every observed output is the reference Format of the CURRENT document
 FormatIsCurrent == rs.fresh => rs.out = <<RefOut(D, rs.what)>>
 \* C04, histories: what the blocks expose is what was written -- on a fresh parse of the same text whatever
@@ -680,6 +786,10 @@ EmitText == (Emit /\ Mode = "text" /\ (Budget > 0 \/ WellFormedText)) =>
 EmitEdit == (Emit /\ Mode = "edit" /\ phase = "edit") =>
                PrintT(<<"CASE", ToJson([t |-> TextClasses, aea |-> aea, ops |-> ops,
                                         fmt |-> Formattable(D), spec |-> Specified(D), doc |-> Struct(D)])>>)
+\* which earlier line (smallest index) has the identical text
+SameAs == [i \in 1..Len(text) |-> CHOOSE j \in 1..i : text[j] = text[i] /\ \A k \in 1..(j - 1) : text[k] # text[i]]
+EmitProc == (Emit /\ Mode = "proc" /\ phase = "proc" /\ Len(ops) = MaxEdits) =>
+               PrintT(<<"CASE", ToJson([t |-> TextClasses, same |-> SameAs, aea |-> aea, calls |-> ops])>>)
 LineToks(t) == [i \in 1..Len(t) |-> [c |-> t[i].c, id |-> t[i].id, h |-> t[i].h]]
 RECURSIVE SetToSeq0(_)
 SetToSeq0(S) == IF S = {} THEN <<>> ELSE LET x == CHOOSE y \in S : \A z \in S : y <= z IN <<x>> \o SetToSeq0(S \ {x})
